@@ -134,7 +134,7 @@ pub fn vector_copy(vm: &mut Vm) -> Result<VCell, Error> {
     let vector = vector.as_ref();
 
     match (start, end) {
-        (Some(start), _) if start >= vector.len() => {
+        (Some(start), _) if start > vector.len() => {
             return Err(InvalidVectorIndex(start, vector.len()));
         }
         (_, Some(end)) if end > vector.len() => {
@@ -144,6 +144,11 @@ pub fn vector_copy(vm: &mut Vm) -> Result<VCell, Error> {
             return Err(InvalidSyntax("vector-copy requires start <= end".into()));
         }
         _ => {}
+    }
+
+    // start = length is a valid (empty) copy; clone_vector's end is inclusive
+    if start == Some(vector.len()) {
+        return Ok(VCell::vector(vec![]));
     }
 
     Ok(VCell::vector(vector.clone_vector(start, end)))
@@ -171,12 +176,12 @@ pub fn vector_mut_copy(vm: &mut Vm) -> Result<VCell, Error> {
     let to_vector = pop_vector(vm)?;
     let to_vector = to_vector.as_ref();
 
-    if at >= to_vector.len() {
+    if at > to_vector.len() {
         return Err(InvalidVectorIndex(at, to_vector.len()));
     }
 
     match (start, end) {
-        (Some(start), _) if start >= from_vector.len() => {
+        (Some(start), _) if start > from_vector.len() => {
             return Err(InvalidVectorIndex(start, from_vector.len()));
         }
         (_, Some(end)) if end > from_vector.len() => {
